@@ -170,7 +170,9 @@ CHECKS["C16"] = dict(
               "environment of faults; QuiescentConverged, Settles) and Backoff.tla (delay table with bounds) checked and exported by TLC; fault sequences "
               "applied to the real proxy with the timing of the exported proxy state (settled / inside the refresh window / control connection just lost) "
               "and compared after each settled fault (spec->code replay); the sequences that a model with a hazard switch fails on are replayed first; "
-              "delays observed at verif hooks and table rows replayed into NewReconnectPolicyWithDelays",
+              "delays observed at verif hooks and table rows replayed into NewReconnectPolicyWithDelays; BackendHandshake.tla (the handshake every "
+              "replaced connection goes through: version downgrade chain, password / DSE / unknown SASL authentication, REGISTER, USE) exported row "
+              "by row and replayed against ConnectCluster, the cluster's reconnect and ConnectSession with a fake backend playing the row",
     text="For every fault sequence (node add / remove / unlist / stop / start / restart, pooled / control / all connections dropped, heartbeat silence; "
          "<=4 hosts, <=4 faults; quick tier a seeded sample) the real proxy converges after every fault to routing exactly the nodes that are listed and "
          "up, re-establishes the control connection (failing over to another host) and reports zero outage; with every node down the outage grows and it "
